@@ -8,7 +8,7 @@ require (
 	verifshim v0.0.0-00010101000000-000000000000
 )
 
-require golang.org/x/crypto v0.17.0 // indirect
+require golang.org/x/crypto v0.17.0
 
 replace github.com/islishude/bip39 => /repo
 
